@@ -131,7 +131,9 @@ def fam_renames(g):
     files = g.w.tracked_files(g.repo)
     if files:
         f = rng.choice(files)
-        new = ("moved/" if rng.random() < 0.5 else "") + "r%d_" % g.msg_n + f.replace("/", "_")
+        # (git mv does not create directories: move within the tree that exists)
+        new = ("src/" if rng.random() < 0.5 and g.w.read(g.repo, "src/keep.txt") is not None else "") + \
+            "r%d_" % g.msg_n + f.replace("/", "_")
         g.ex.probe("rename")
         yield g.git("mv", f, new)
         if rng.random() < 0.4:
